@@ -101,6 +101,7 @@ long strtol(const char *nptr, char **endptr, int base)
 #ifndef XV_AP_E3
     __CPROVER_loop_invariant(xv_ap_q < i ==> AP_NUMCHAR(nptr[xv_ap_q]))
     __CPROVER_loop_invariant((any && i >= 1) ==> AP_DIGIT(nptr[i - 1]))
+    __CPROVER_loop_invariant((i >= 1 && AP_DIGIT(nptr[0])) ==> (!lead && (xv_ap_q < i ==> AP_DIGIT(nptr[xv_ap_q]))))
 #endif
     __CPROVER_decreases(room - i)
 #pragma CPROVER check pop
